@@ -36,7 +36,7 @@ type callsScen struct {
 func callsFieldTypes(fk string) (string, string) {
 	m := map[string][2]string{"i2i": {"int", "int"}, "i2s": {"int", "string"}, "ptrA": {"*A", "*A2"}, "ptrB": {"*B", "*B2"},
 		"slcA": {"[]A", "[]A2"}, "slcB": {"[]B", "[]B2"}, "valB": {"B", "B2"},
-		"s2s": {"string", "string"}, "mapB": {"map[string]B", "map[string]B2"}, "mapK": {"map[int]int", "map[string]int"}, "mapV": {"map[string]int", "map[string]string"}}
+		"s2s": {"string", "string"}, "mapB": {"map[string]B", "map[string]B2"}, "mapK": {"map[int]int", "map[string]int"}, "mapV": {"map[string]int", "map[string]string"}, "p2vB": {"*B", "B2"}, "p2s": {"*int", "string"}, "mth": {"int", "int"}}
 	return m[fk][0], m[fk][1]
 }
 
@@ -53,6 +53,13 @@ func callsSource(i int, s callsScen) string {
 	wrap := ""
 	if s.Wrap == "using" {
 		wrap = "// goverter:wrapErrorsUsing v.test/b/wx\n"
+	}
+	for _, sh := range s.Shape {
+		for _, fk := range sh {
+			if (fk == "p2vB" || fk == "p2s") && !strings.Contains(wrap, "useZeroValue") {
+				wrap += "// goverter:useZeroValueOnPointerInconsistency\n"
+			}
+		}
 	}
 	fmt.Fprintf(&b, "package %s\n\nimport \"math\"\n\ntype Ctx struct{ Tok string }\n\n// goverter:converter\n// goverter:extend %s\n%stype C interface {\n", pkg, ext, wrap)
 	params := "source A"
@@ -88,15 +95,27 @@ func callsSource(i int, s callsScen) string {
 	}
 	b.WriteString("\nfunc Canon(s string) string {\n\tif s == \"\" {\n\t\ts = \"z\"\n\t}\n\treturn \"C(\" + s + \")\"\n}\n\nfunc Tok(v int) string { return tok(v) }\n")
 	names := []string{"F", "G"}
+	var meths strings.Builder
 	for _, id := range []string{"A", "B"} {
 		var sf, tf []string
 		for k, fk := range s.Shape[id] {
 			st, tt := callsFieldTypes(fk)
-			sf = append(sf, names[k]+" "+st)
+			if fk == "mth" {
+				// the target field is matched with a source method of its name, reading a field of another name
+				sf = append(sf, "X"+names[k]+" "+st)
+				if s.ExtErr {
+					fmt.Fprintf(&meths, "\nfunc (x %s) %s() (int, error) {\n\tif faults && tok(x.X%s) == \"a\" {\n\t\treturn 0, ErrInj{tok(x.X%s)}\n\t}\n\treturn x.X%s, nil\n}\n", id, names[k], names[k], names[k], names[k])
+				} else {
+					fmt.Fprintf(&meths, "\nfunc (x %s) %s() int { return x.X%s }\n", id, names[k], names[k])
+				}
+			} else {
+				sf = append(sf, names[k]+" "+st)
+			}
 			tf = append(tf, names[k]+" "+tt)
 		}
 		fmt.Fprintf(&b, "\ntype %s struct{ %s }\ntype %s2 struct{ %s }\n", id, strings.Join(sf, "; "), id, strings.Join(tf, "; "))
 	}
+	b.WriteString(meths.String())
 	return b.String()
 }
 
